@@ -1463,6 +1463,20 @@ func (g *GenState) genOfKind(t *rapid.T, kind string) Action {
 		a := Action{Kind: KTx}
 		for i := 0; i < n; i++ {
 			k := g.genKind(t, map[string]bool{KTx: true, KEndBlock: true, KRestart: true, KSetParams: true})
+			if i > 0 && (a.Msgs[i-1].Kind == KCall || a.Msgs[i-1].Kind == KModCreate) && pct(t, "tx_manage_new_ctx", 40) {
+				// a later message of the transaction manages the context an earlier one creates
+				creator := a.Msgs[i-1]
+				k = pick(t, "tx_manage_kind", []string{KUpdateCtx, KPause, KKill, KStart})
+				if creator.Kind == KModCreate {
+					k = pick(t, "tx_manage_mod_kind", []string{KModUpdate, KModPause, KModKill, KModStart})
+				}
+				m := g.genOfKind(t, k)
+				ref := i - 1
+				m.TxRef, m.CtxRef, m.CtxID = &ref, nil, hx(rep(0x11, 40))
+				m.Signer = g.signerFor(t, creator.Signer)
+				a.Msgs = append(a.Msgs, m)
+				continue
+			}
 			a.Msgs = append(a.Msgs, g.genOfKind(t, k))
 		}
 		return a
